@@ -583,6 +583,12 @@ def run_program(prog, record=True, tid0=0, lazy=True, seed=None, impl=False):
                 ex[k] = pd.Series([float("nan") if x is None else float(x) for x in v["values"]], index=dates_of(prog))
             elif isinstance(v, dict) and v.get("__raw__") is not None:
                 ex[k] = v["__raw__"]
+            elif isinstance(v, dict) and v.get("__tx__"):
+                # a blotter: [data row, ticker, quantity, price, hours before the close]
+                dts_ = dates_of(prog)
+                rows = v["rows"]
+                idx = pd.MultiIndex.from_tuples([(dts_[r[0]] - pd.DateOffset(hours=int(r[4]) if len(r) > 4 else 0), r[1]) for r in rows], names=["Date", "Security"])
+                ex[k] = pd.DataFrame({"quantity": [float(r[2]) for r in rows], "price": [float(r[3]) for r in rows]}, index=idx)
             elif isinstance(v, dict) and v.get("__group__"):
                 ex[k] = {m: frame(prog, tab) for m, tab in v["frames"].items()}
             elif isinstance(v, dict):
